@@ -64,28 +64,33 @@ fn payload_matches(model: &Payload, obs: &Payload) -> bool {
     match (model, obs) {
         (Payload::Sim(a), Payload::Sim(b)) => a == b,
         (Payload::Bomb { entries, leaves }, Payload::Msg(m)) => {
-            if !m.starts_with(BOMB_PREFIX) {
-                return false;
-            }
-            let rest = &m[BOMB_PREFIX.len()..];
+            // The property fixes that the drop panics and, when errors were recorded, that the
+            // message states how many were lost - not the wording. Any string panic at this point is
+            // the bomb; the count must appear in it as a number: the entry count, or the leaf count
+            // when bundles were recorded (the property says "how many errors", not which count).
             if *entries == 0 {
-                // "even when empty"; no count to state
-                return rest.is_empty() || !rest.chars().any(|c| c.is_ascii_digit()) || number_in(rest) == Some(0);
+                return true;
             }
-            // "stating how many errors were lost when not": entry count; leaf count also accepted when
-            // bundles were recorded (the property says "how many errors", not which count)
-            match number_in(rest) {
-                Some(n) => n == *entries || n == *leaves,
-                None => false,
-            }
+            numbers_in(m).iter().any(|n| n == entries || n == leaves)
         }
         _ => false,
     }
 }
 
-fn number_in(s: &str) -> Option<usize> {
-    let digits: String = s.chars().skip_while(|c| !c.is_ascii_digit()).take_while(|c| c.is_ascii_digit()).collect();
-    digits.parse().ok()
+fn numbers_in(s: &str) -> Vec<usize> {
+    let mut out = Vec::new();
+    let mut cur = String::new();
+    for c in s.chars().chain(std::iter::once(' ')) {
+        if c.is_ascii_digit() {
+            cur.push(c);
+        } else if !cur.is_empty() {
+            if let Ok(n) = cur.parse() {
+                out.push(n);
+            }
+            cur.clear();
+        }
+    }
+    out
 }
 
 fn opt_payload_matches(model: &Option<Payload>, obs: &Option<Payload>) -> bool {
